@@ -140,7 +140,9 @@ type c15Live struct {
 
 func (l *c15Live) hasClients() bool { return l.pub != nil || len(l.readers) > 0 }
 
-func c15IsRegexConf(n string) bool { return strings.HasPrefix(n, "~") || n == "all_others" || n == "all" }
+func c15IsRegexConf(n string) bool {
+	return strings.HasPrefix(n, "~") || n == "all_others" || n == "all"
+}
 
 func c15SetYAML(set map[string]c15Fields, recDir string) string {
 	names := make([]string, 0, len(set))
@@ -556,4 +558,3 @@ func TestVerifC15Reconcile(t *testing.T) {
 		rec.Case(nontrivial, strings.Join(hist, " ; "), cls...)
 	})
 }
-
